@@ -359,7 +359,8 @@ def mutate(root, rng, gen, kind=None):
     """Applies one random mutation in place; returns a description or None if not applicable."""
     nodes = all_nodes(root)
     kind = kind or rng.choice(MUTATIONS)
-    inner = [n for n in nodes if n.parent is not None]
+    # (nodes whose parent link names the node that lists them: the mutations below go through that link)
+    inner = [n for n in nodes if n.parent is not None and any(c is n for c in n.parent.children) and any(x is n.parent for x in nodes)]
     if kind == "drop" and inner:
         n = rng.choice(inner)
         n.parent.remove_child(n)
